@@ -978,3 +978,73 @@ def rule_inj5(ctx: Ctx) -> RuleResult:
     if rr.instances == 0:
         raise AnalysisError("INJ-5: indent() no longer splits its input (anchor vanished)")
     return rr
+
+
+# ---------------------------------------------------------------------------------------------------------------
+def rule_kw1(ctx: Ctx) -> RuleResult:
+    """sort_kwargs only re-orders: every keyword argument of a field survives (the default, the alias, the metadata)."""
+    rr = RuleResult("KW-1", "ordering the field arguments loses none of them", floor=2)
+    f = ctx.prog.func(BASE, "sort_kwargs")
+    p = f.params[0]
+    rets = [n for n in walk_no_nested(f.node) if isinstance(n, ast.Return) and n.value is not None]
+    if not rets:
+        raise AnalysisError("KW-1: sort_kwargs returns nothing")
+    # what the returned mapping is made of
+    rv = rets[-1].value
+    if isinstance(rv, ast.Name):
+        defs = [n for n in walk_no_nested(f.node) if isinstance(n, ast.Assign) and norm(n.targets[0]) == rv.id]
+        if len(defs) == 1:
+            rv = defs[0].value
+    parts: List[str] = []
+    if isinstance(rv, ast.Dict):
+        for k, v in zip(rv.keys, rv.values):
+            if k is None:
+                parts.append(norm(v))
+    elif isinstance(rv, ast.Call) and norm(rv.func) in ("dict", "OrderedDict"):
+        parts += [norm(a) for a in rv.args] + [norm(k.value) for k in rv.keywords if k.arg is None]
+    # every value taken out of the input goes into a part of the result
+    rr.instances += 1
+    pops = [n for n in walk_no_nested(f.node) if isinstance(n, ast.Call) and isinstance(n.func, ast.Attribute) and n.func.attr == "pop"
+            and norm(n.func.value) == p]
+    lost = []
+    sinks = set()
+    for c in pops:
+        st_ = f.module.parents.get(c)
+        while st_ is not None and not isinstance(st_, ast.stmt):
+            st_ = f.module.parents.get(st_)
+        kept = None
+        if isinstance(st_, ast.Assign):
+            t = st_.targets[0]
+            if isinstance(t, ast.Subscript):
+                kept = norm(t.value)
+            elif isinstance(t, ast.Name):
+                # value bound to a local, then stored
+                for n in walk_no_nested(f.node):
+                    if isinstance(n, ast.Assign) and isinstance(n.targets[0], ast.Subscript) and norm(n.value) == t.id:
+                        kept = norm(n.targets[0].value)
+        if kept is None:
+            lost.append(c)
+        else:
+            sinks.add(kept)
+    # `current` style aliases: resolve to the dicts they can denote
+    alias = {}
+    for n in walk_no_nested(f.node):
+        if isinstance(n, ast.Assign) and isinstance(n.targets[0], ast.Name) and isinstance(n.value, ast.Name):
+            alias.setdefault(n.targets[0].id, set()).add(n.value.id)
+    real = set()
+    for s_ in sinks:
+        real |= alias.get(s_, {s_})
+    missing = sorted(x for x in real if x not in parts)
+    ok = not lost and not missing
+    rr.ob(f.relpath, f.qualname, norm(rets[-1])[:80], "every argument taken out of the input mapping is put into a mapping that is "
+          "part of the result", DISCHARGED if ok else VIOLATED,
+          f"popped values go to {sorted(real)}, all merged into the result" if ok else
+          (f"`{norm(lost[0])}` discards the value" if lost else f"{missing} receive arguments but are not part of the returned mapping"),
+          rets[-1].lineno)
+    rr.instances += 1
+    ok2 = p in parts
+    rr.ob(f.relpath, f.qualname, norm(rets[-1])[:80], "arguments that no ordering group mentions stay in the result",
+          DISCHARGED if ok2 else VIOLATED, "the remainder of the input is merged in" if ok2 else
+          f"the remainder of `{p}` is not part of the returned mapping {parts}: arguments outside the ordering table (e.g. alias, "
+          f"default) are dropped", rets[-1].lineno)
+    return rr
